@@ -116,10 +116,31 @@ fn gen_ops(rng: &mut Rng, out: &mut Vec<String>, shape: &[u64], chunk: &[u64], e
     out.push(format!("c12 op retrieve_array_subset r={}+{}", nl(&vec![0u64; rank]), nl(shape)));
 }
 
+/// `c12 inflate kind=gzip|zlib data=<hex>`: a real compressor's stream, decoded here by flate2 and by the model's own DEFLATE decoder
+pub fn exec_inflate(m: &BTreeMap<String, String>) -> String {
+    use std::io::Read;
+    let data = unhex(&m["data"]);
+    let mut out = vec![];
+    let ok = if m["kind"] == "gzip" { flate2::read::GzDecoder::new(&data[..]).read_to_end(&mut out).is_ok() } else { flate2::read::ZlibDecoder::new(&data[..]).read_to_end(&mut out).is_ok() };
+    if ok { format!("val {}", hex(&out)) } else { "none".into() }
+}
+
 pub fn generate(tier: &str, seed: u64) -> Vec<String> {
     let thorough = tier == "thorough";
     let mut rng = Rng::new(seed ^ 0xC12);
     let mut out = vec![];
+    // the model's DEFLATE decoder against real compressor output (all block types, levels 0..9)
+    for i in 0..(if thorough { 400 } else { 60 }) {
+        use std::io::Write;
+        let n = match i % 5 { 0 => rng.below(4), 1 => rng.below(64), 2 => rng.below(600), 3 => rng.below(3000), _ => 66000 + rng.below(100) } as usize;
+        let alpha = *rng.pick(&[2u64, 4, 16, 256]);
+        let data: Vec<u8> = if i % 7 == 0 { let unit: Vec<u8> = (0..rng.range(1, 9)).map(|_| rng.below(alpha) as u8).collect(); unit.iter().cycle().take(n).cloned().collect() } else { (0..n).map(|_| rng.below(alpha) as u8).collect() };
+        let level = flate2::Compression::new(rng.below(10) as u32);
+        let (kind, enc) = if rng.chance(1, 2) { let mut e = flate2::write::GzEncoder::new(vec![], level); e.write_all(&data).unwrap(); ("gzip", e.finish().unwrap()) }
+            else { let mut e = flate2::write::ZlibEncoder::new(vec![], level); e.write_all(&data).unwrap(); ("zlib", e.finish().unwrap()) };
+        out.push(format!("c12 inflate kind={} data={}", kind, hex(&enc)));
+        if i % 10 == 0 && enc.len() > 12 { let mut bad = enc.clone(); let at = rng.range(10, bad.len() as u64 - 1) as usize; bad[at] ^= 1 << rng.below(8); out.push(format!("c12 inflate kind={} data={}", kind, hex(&bad))); }
+    }
     let n = if thorough { 4000 } else { 400 };
     for i in 0..n {
         let rank = *rng.pick(&[0usize, 1, 1, 2, 2, 3]);
